@@ -129,18 +129,12 @@ from vf import ctx, c19
 from vf.mm import MM
 from vf.pyside import Py
 mm = MM.load(ctx.mm_path())
-# import the package WITHOUT creating any converter first: the mode under test is the first one
-import importlib
 pkg = ctx.pkg_root()
-sys.path.insert(0, pkg)
-class P: pass
-py = P(); py.mm = mm
-import attrs, cattrs
-py.attrs, py.cattrs = attrs, cattrs
-py.T = importlib.import_module("lsprotocol.types"); py.cv = importlib.import_module("lsprotocol.converters")
+# no converter exists yet: the configuration under test creates the FIRST converter of this process
+# and answers the whole battery before any other converter is made
+py = Py(pkg, mm, make_converter=False)
 conv, m = c19.make(py, %(mode)r, [])
-full = Py(pkg, mm)
-bat = c19.build_battery(mm, full, heavy=%(heavy)r)
+bat = c19.build_battery(mm, py, heavy=%(heavy)r)
 print(json.dumps({"mode": %(mode)r, "n": len(bat), "results": c19.run_battery(conv, bat)}))
 """
 
